@@ -72,6 +72,71 @@ def path_term(body, fmt_call_bb=None, which=0):
     return c, _decode_format(body, o, o.of_operand(c.args[0]), o.of_operand(c.args[1]), item_ok, 0)
 
 
+def _array_elem_locals(body, o, arr_term):
+    """Locals of the operands of the array aggregate whose origin term is `arr_term` (None if it cannot be located)."""
+    for bl in body.blocks:
+        if bl.get("cleanup"):
+            continue
+        for st in bl["s"]:
+            if st["k"] == "assign" and st["rv"]["k"] == "agg" and st["rv"].get("ak") == "array" and strip_identity(o.of_rvalue(st["rv"])) == arr_term:
+                out = []
+                for op_ in st["rv"]["ops"]:
+                    pl_ = op_place(op_)
+                    out.append(place_local(pl_) if pl_ is not None else None)
+                return out
+    return None
+
+
+def _phi_piece(body, o, loc, item_ok):
+    """Canonical piece of a conditional string held in local `loc`: "D" for `if package.is_empty() { "" } else { "." }`."""
+    if loc is None:
+        return "?phi"
+    ite = None
+    for _ in range(10):
+        ite = ite_of(body, o, loc)
+        if ite is not None:
+            break
+        ds = [d for d in body.defs().get(loc, []) if d[0] == "assign" and d[3]["k"] in ("ref", "use")]
+        if len(ds) != 1:
+            break
+        pl_ = ds[0][3]["pl"] if ds[0][3]["k"] == "ref" else op_place(ds[0][3]["op"])
+        if pl_ is None:
+            break
+        loc = place_local(pl_)
+        fs = [e["f"] for e in (pl_["p"] if not isinstance(pl_, int) else []) if isinstance(e, dict) and "f" in e]
+        if fs:
+            # projection out of a tuple aggregate: follow the selected operand
+            ad = [d for d in body.defs().get(loc, []) if d[0] == "assign" and d[3]["k"] == "agg" and d[3]["ak"] == "tuple"]
+            if len(ad) != 1 or fs[0] >= len(ad[0][3]["ops"]) or op_place(ad[0][3]["ops"][fs[0]]) is None:
+                break
+            loc = place_local(op_place(ad[0][3]["ops"][fs[0]]))
+    if ite is None:
+        return "?phi"
+    cond = strip_identity(ite[1])
+    okc = cond[0] == "call" and name_matches(cond[1], ("core::str::is_empty", "alloc::string::String::is_empty")) and canon_piece(body, o, cond[2][0], item_ok) == "P"
+    return "D" if okc and ite[2] == '""' and ite[3] == '"."' else f"?ite({show(cond)[:30]},{ite[2]},{ite[3]})"
+
+
+def _concat_pieces(body, o, val, item_ok):
+    """Pieces of a String assembled with `[a, b, c].concat()`; None if `val` is not of that form."""
+    cc = strip_identity(val, extra=("hint::must_use", "string::String::as_str", "ToString::to_string", "Deref::deref", "borrow::Borrow::borrow", "convert::AsRef::as_ref"))
+    if not (cc[0] == "call" and (cc[1].endswith("::concat") or name_matches(cc[1], "slice::concat")) and len(cc[2]) == 1):
+        return None
+    arr2 = strip_identity(cc[2][0])
+    if not (arr2[0] == "agg" and arr2[1] == "array"):
+        return None
+    locs = _array_elem_locals(body, o, arr2)
+    out = []
+    for i_, el in enumerate(arr2[3]):
+        if strip_identity(el)[0] == "phi":
+            out.append(_phi_piece(body, o, locs[i_] if locs else None, item_ok))
+        elif const_of(el) is not None and str(const_of(el)).startswith('"'):
+            out.append(str(const_of(el))[1:-1])
+        else:
+            out.append(canon_piece(body, o, el, item_ok))
+    return out
+
+
 def _decode_format(body, o, tpl_t, arr_t, item_ok, depth):
     tpl = decode_format_template(const_of(tpl_t))
     arr = strip_identity(arr_t)
@@ -94,35 +159,14 @@ def _decode_format(body, o, tpl_t, arr_t, item_ok, depth):
         if depth < 3 and inner[0] == "call" and name_matches(inner[1], "fmt::Arguments::new") and len(inner[2]) >= 2:
             pieces.extend(_decode_format(body, o, inner[2][0], inner[2][1], item_ok, depth + 1))
             continue
+        # a String assembled with `[a, b, c].concat()` (instead of format!("{}{}{}", a, b, c)): its parts, spliced in place
+        cp_ = _concat_pieces(body, o, val, item_ok) if depth < 3 else None
+        if cp_ is not None:
+            pieces.extend(cp_)
+            continue
         if sv[0] == "phi":
-            # the local holding the conditional string
             call = body.call_at(a[3])
-            loc = place_local(op_place(call.args[0]))
-            ite = None
-            for _ in range(10):
-                ite = ite_of(body, o, loc)
-                if ite is not None:
-                    break
-                ds = [d for d in body.defs().get(loc, []) if d[0] == "assign" and d[3]["k"] in ("ref", "use")]
-                if len(ds) != 1:
-                    break
-                pl_ = ds[0][3]["pl"] if ds[0][3]["k"] == "ref" else op_place(ds[0][3]["op"])
-                if pl_ is None:
-                    break
-                loc = place_local(pl_)
-                fs = [e["f"] for e in (pl_["p"] if not isinstance(pl_, int) else []) if isinstance(e, dict) and "f" in e]
-                if fs:
-                    # projection out of a tuple aggregate: follow the selected operand
-                    ad = [d for d in body.defs().get(loc, []) if d[0] == "assign" and d[3]["k"] == "agg" and d[3]["ak"] == "tuple"]
-                    if len(ad) != 1 or fs[0] >= len(ad[0][3]["ops"]) or op_place(ad[0][3]["ops"][fs[0]]) is None:
-                        break
-                    loc = place_local(op_place(ad[0][3]["ops"][fs[0]]))
-            if ite is None:
-                pieces.append("?phi")
-                continue
-            cond = strip_identity(ite[1])
-            okc = cond[0] == "call" and name_matches(cond[1], ("core::str::is_empty", "alloc::string::String::is_empty")) and canon_piece(body, o, cond[2][0], item_ok) == "P"
-            pieces.append(("D" if okc and ite[2] == '""' and ite[3] == '"."' else f"?ite({show(cond)[:30]},{ite[2]},{ite[3]})"))
+            pieces.append(_phi_piece(body, o, place_local(op_place(call.args[0])), item_ok))
         else:
             pieces.append(canon_piece(body, o, val, item_ok))
     return pieces
@@ -157,6 +201,30 @@ def split_statements(tokens):
         elif t == ";":
             out.append([])
     return out
+
+
+def let_rhs(toks, name):
+    """Tokens of the initialiser of `let [mut] name = ...;` in a flattened template (None if there is no such binding)."""
+    for i in range(len(toks) - 3):
+        if toks[i] != "let":
+            continue
+        j = i + 1
+        if toks[j] == "mut":
+            j += 1
+        if toks[j] == name and toks[j + 1] == "=":
+            out, depth, k = [], 0, j + 2
+            while k < len(toks):
+                t = toks[k]
+                if t in ("(", "{", "["):
+                    depth += 1
+                elif t in (")", "}", "]"):
+                    depth -= 1
+                elif t == ";" and depth == 0:
+                    return out
+                out.append(t)
+                k += 1
+            return out
+    return None
 
 
 def run(cx):
@@ -198,6 +266,11 @@ def run(cx):
                 if [x[3] for x in walk(tn) if x[0] == "call" and name_matches(x[1], "fmt::Arguments::new")] == [c.bb]:
                     c3, name_pieces = path_term(sg, which=i)
                     ok = True
+        if not ok:
+            # the name assembled without format! (`[package, sep, ident].concat()`)
+            cp_ = _concat_pieces(sg, so, tn, lambda t_: False)
+            if cp_ is not None:
+                name_pieces, ok = cp_, True
         ob.require(ok, "service-name/flows-to-transport", f"generate_transport name argument is {show(tn)[:100]}", sg.path)
         want = ["/", "P", "D", "S", "/", "M"]
         ob.require(client_path == want, "client/route-term", f"client route = {client_path}, expected {want}", gm.path, gm.loc(c1.bb))
@@ -277,6 +350,13 @@ def run(cx):
         st, res = Q.streams(sg)
         toks = Q.flatten(st, res)
         mi = [i for i in range(len(toks) - 6) if toks[i:i + 6] == ["match", "req", ".", "route", "(", ")"]]
+        if not mi:
+            # `let route = req.route(); match route { .. }`: the matched value is a local bound to req.route()
+            for i_ in range(len(toks) - 3):
+                if toks[i_] == "match" and isinstance(toks[i_ + 1], str) and toks[i_ + 2] == "{" and let_rhs(toks, toks[i_ + 1]) == ["req", ".", "route", "(", ")"]:
+                    toks = toks[:i_] + ["match", "req", ".", "route", "(", ")"] + toks[i_ + 2:]
+                    mi = [i_]
+                    break
         ok = len(mi) == 1 and toks[mi[0] + 6] == "{" and isinstance(toks[mi[0] + 7], Q.Hole) and term_has_call(toks[mi[0] + 7].term, f"{AB}::server::generate_method_routes") \
             and toks[mi[0] + 8] == "_" and toks[mi[0] + 9] == "=>"
         ob.require(ok, "server/match-on-route", f"server call() template around match: `{Q.render(toks[mi[0]:mi[0] + 12]) if mi else None}`", sg.path)
@@ -314,9 +394,14 @@ def run(cx):
         st, res = Q.streams(rb)
         toks = Q.flatten(st, res)
         svc = [i for i, t in enumerate(toks) if isinstance(t, Q.Hole) and ident_term(rb, ro, t.term) == ["M", "Svc"]]
-        ok = len(svc) == 1 and toks[svc[0] + 1:svc[0] + 4] == ["(", "inner", ")"]
+        # <M>Svc(h) with h bound to a clone of the server's shared handler (`let h = self.inner.clone();`), whatever h is called
+        ok = len(svc) == 1 and toks[svc[0] + 1] == "(" and toks[svc[0] + 3] == ")" and isinstance(toks[svc[0] + 2], str) \
+            and let_rhs(toks, toks[svc[0] + 2]) == ["self", ".", "inner", ".", "clone", "(", ")"]
         ob.require(ok, "arm/constructs-method-service", f"arm template: `{Q.render(toks)[:200]}`", rb.path)
-        ob.require("unary" in toks and "method" in toks and "req" in toks, "arm/dispatches", "arm does not call rpc.unary(method, req)", rb.path)
+        # rpc.unary(s, req) with s bound to the layered <M>Svc built above
+        un = [i_ for i_ in range(len(toks) - 5) if toks[i_] == "unary" and toks[i_ + 1] == "(" and toks[i_ + 3] == "," and toks[i_ + 4] == "req" and toks[i_ + 5] == ")"]
+        okd = len(un) == 1 and isinstance(toks[un[0] + 2], str) and svc and any(t_ is toks[svc[0]] for t_ in (let_rhs(toks, toks[un[0] + 2]) or []))
+        ob.require(okd, "arm/dispatches", "arm does not call rpc.unary(<the layered method service>, req)", rb.path)
         sb = cx.body(f"{AB}::server::generate_method_service")
         so = Origins(sb)
         st, res = Q.streams(sb)
@@ -324,7 +409,9 @@ def run(cx):
         sname = [i for i, t in enumerate(toks) if isinstance(t, Q.Hole) and i > 0 and toks[i - 1] == "struct"]
         ob.require(len(sname) == 1 and ident_term(sb, so, toks[sname[0]].term) == ["M", "Svc"], "service/struct-name", f"method service struct = {ident_term(sb, so, toks[sname[0]].term) if sname else None}", sb.path)
         inv = [i for i, t in enumerate(toks) if isinstance(t, Q.Hole) and ident_term(sb, so, t.term) == ["Mname"] and toks[i - 1] == "." and toks[i + 1] == "(" and toks[i + 2] == "request"]
-        ob.require(len(inv) == 1 and toks[inv[0] - 5:inv[0] - 1] == ["(", "*", "inner", ")"], "service/invokes-trait-method", f"method service call template does not invoke (*inner).<Mname>(request)", sb.path)
+        okv = len(inv) == 1 and toks[inv[0] - 5:inv[0] - 3] == ["(", "*"] and toks[inv[0] - 2] == ")" and isinstance(toks[inv[0] - 3], str) \
+            and let_rhs(toks, toks[inv[0] - 3]) in (["self", ".", "0", ".", "clone", "(", ")"], ["self", ".", 'lit:"0"', ".", "clone", "(", ")"])
+        ob.require(okv, "service/invokes-trait-method", f"method service call template does not invoke (*h).<Mname>(request) on h = self.0.clone()", sb.path)
         impl_for = [i for i, t in enumerate(toks) if t == "for" and isinstance(toks[i + 1], Q.Hole) and ident_term(sb, so, toks[i + 1].term) == ["M", "Svc"]]
         ob.require(len(impl_for) >= 1, "service/impl-for-same-struct", "Service impl is not for the <M>Svc struct", sb.path)
         tb = cx.body(f"{AB}::server::generate_trait_methods")
@@ -337,7 +424,19 @@ def run(cx):
         mb = cx.body(f"{AB}::server::generate_method_services")
         mo = Origins(mb)
         c = mb.calls_to(f"{AB}::server::generate_method_service")
-        ob.require(len(c) == 1 and term_has_call(mo.of_operand(c[0].args[0]), f"{AB}::manual::Service::methods"), "services/per-method", "method services are not generated per service.methods() item", mb.path)
+        okpm = len(c) == 1 and term_has_call(mo.of_operand(c[0].args[0]), f"{AB}::manual::Service::methods")
+        if not c:
+            # `service.methods().iter().map(|m| generate_method_service(m, ..)).collect()`: the call sits in the closure of one
+            # iterator adaptor over service.methods() and is applied to the closure's item
+            kbs = [k for k in prog.children(mb) if k.calls_to(f"{AB}::server::generate_method_service")]
+            if len(kbs) == 1:
+                kb = kbs[0]
+                kc = kb.calls_to(f"{AB}::server::generate_method_service")
+                drv = [c_ for c_ in mb.calls() if name_matches(c_.fn, ("Iterator::map", "Iterator::for_each", "Iterator::flat_map", "Iterator::fold")) and not mb.is_cleanup(c_.bb)
+                       and any(strip_identity(mo.of_operand(a_))[0] == "agg" and strip_identity(mo.of_operand(a_))[2] == kb.path for a_ in c_.args)]
+                okpm = len(kc) == 1 and len(drv) == 1 and term_has_call(mo.of_operand(drv[0].args[0]), f"{AB}::manual::Service::methods") \
+                    and any(x[0] == "param" and x[1] >= 2 for x in walk(Origins(kb).of_operand(kc[0].args[0])))
+        ob.require(okpm, "services/per-method", "method services are not generated per service.methods() item", mb.path)
         # accessors
         for acc, fld in (("Method::name", "name"), ("Method::identifier", "route_name"), ("Service::identifier", "name"), ("Service::package", "package"), ("Service::name", "name")):
             ab = cx.body(f"{AB}::manual::{acc}")
